@@ -474,6 +474,16 @@ class StepExecutor:
     def fixed_point_update(self, f, fpf: ast.FunctionDef, init_expr, env, target_vars, obj):
         """Analyse nested fixed_point_func: returns (vars, derivs, coeffs)."""
         body = [s for s in fpf.body if not (isinstance(s, ast.Expr) and isinstance(s.value, ast.Constant))]
+        # `a, b = E; X.p = a; X.q = b`  ==  `X.p, X.q = E`  (a, b not read afterwards)
+        if body and isinstance(body[0], ast.Assign) and len(body[0].targets) == 1 and isinstance(body[0].targets[0], ast.Tuple) and all(isinstance(x, ast.Name) for x in body[0].targets[0].elts):
+            names = [x.id for x in body[0].targets[0].elts]
+            k = len(names)
+            stores = body[1 : 1 + k]
+            later = {n.id for st in body[1 + k :] for n in ast.walk(st) if isinstance(n, ast.Name)}
+            if len(stores) == k and all(isinstance(st, ast.Assign) and len(st.targets) == 1 and isinstance(st.targets[0], ast.Attribute) and isinstance(st.value, ast.Name) and st.value.id == nm for st, nm in zip(stores, names)) and not (set(names) & later):
+                merged = ast.Assign(targets=[ast.Tuple(elts=[st.targets[0] for st in stores], ctx=ast.Store())], value=body[0].value)
+                ast.copy_location(merged, body[0])
+                body = [ast.fix_missing_locations(merged)] + body[1 + k :]
         if len(body) < 2 or not isinstance(body[0], ast.Assign) or not isinstance(body[-1], ast.Return):
             raise AnalysisError(f"{f.qualname}: fixed-point function outside the accepted idiom")
         asg, ret = body[0], body[-1]
